@@ -38,6 +38,14 @@ def t_for_range(n, ms, ws):
         cnt += keep
     return acc, cnt
 
+def t_dict_unroll(d, h):
+    u = d.get('unit') or 'radians'
+    if u == 'radians':
+        for k in ('a', 'b'):
+            d[k] *= h
+        d['note'] = 'm'
+    return d['a'], d['b']
+
 def t_masked_store(x, y, f):
     m = y > 0
     x[m] /= y[m]
@@ -201,6 +209,9 @@ SPECS = [
          gen_args=lambda rng: (lambda k: [k, [rng.random() < 0.4 for _ in range(k)],
                                            [Fraction(rng.randrange(-64, 65), rng.choice([1, 2, 4])) for _ in range(k)]])(rng.randrange(0, 6))),
     dict(name="t_masked_store", params=[("x", Q), ("y", Q), ("f", Q)], returns=Q, arrays=True, pow2=["y"]),
+    dict(name="t_dict_unroll", params=[("d['unit']", P.opt(S)), ("d['a']", Q), ("d['b']", Q), ("h", Q)], returns=P.tup(Q, Q),
+         gen_args=lambda rng: [rng.choice([None, "", "radians", "m", "rad"]), Fraction(rng.randrange(-64, 65), 4),
+                               Fraction(rng.randrange(-64, 65), 8), Fraction(rng.randrange(-9, 10), 2)]),
 ]
 
 
@@ -296,7 +307,18 @@ def main():
             args = spec["gen_args"](rng) if "gen_args" in spec else [gen(t, rng, spec, nm) for nm, t in spec["params"]]
             try:
                 with np.errstate(all="ignore"):
-                    res = env[spec["name"]](*[to_py(a, t, numpy_mode) for a, (_, t) in zip(args, spec["params"])])
+                    pyargs, dicts = [], {}
+                    for a, (nm, t) in zip(args, spec["params"]):
+                        if "['" in nm:          # a dictionary entry as a parameter: the entries of one name form one dict argument
+                            dn, key = nm.split("['")[0], nm.split("['")[1][:-2]
+                            if dn not in dicts:
+                                dicts[dn] = {}
+                                pyargs.append(dicts[dn])
+                            if a is not None:
+                                dicts[dn][key] = to_py(a, t[1] if isinstance(t, tuple) and t[0] == "opt" else t, numpy_mode)
+                        else:
+                            pyargs.append(to_py(a, t, numpy_mode))
+                    res = env[spec["name"]](*pyargs)
             except ZeroDivisionError:
                 continue
             if isinstance(res, list):
